@@ -5,6 +5,7 @@ package core
 
 import (
 	"fmt"
+	"strings"
 	"testing"
 	"time"
 
@@ -27,6 +28,10 @@ type JobCase struct {
 	Exec       string       `json:"exec"` // default | go | pool
 	Submitters [][]JobSpec  `json:"submitters"`
 	CloseAfter int          `json:"close_after"` // -1: never; k: Close is invoked after k submissions have returned
+	// Backlog > 0: before the submitters start, a held-up job is submitted and Backlog more jobs are
+	// queued behind it by another goroutine; then it is released and one drain session has to run
+	// them all (job lists that grow far beyond what the ordinary cases reach)
+	Backlog int `json:"backlog,omitempty"`
 }
 
 func genJobCase(r *simrt.Rand, tier string) *JobCase {
@@ -44,6 +49,9 @@ func genJobCase(r *simrt.Rand, tier string) *JobCase {
 	c.CloseAfter = -1
 	if r.Bool(0.5) {
 		c.CloseAfter = r.Intn(total + 1)
+	}
+	if r.Bool(0.08) {
+		c.Backlog = r.Pick(30, 63, 64, 65, 66, 127, 128, 129, 200, 300, 1000)
 	}
 	return c
 }
@@ -84,6 +92,19 @@ func shrinkJobs(ci interface{}) []interface{} {
 		x := cp()
 		x.CloseAfter = -1
 		out = append(out, x)
+	}
+	if c.Backlog > 0 {
+		x := cp()
+		x.Backlog = 0
+		out = append(out, x)
+		if c.Backlog > 1 {
+			x = cp()
+			x.Backlog = c.Backlog - 1
+			out = append(out, x)
+			x = cp()
+			x.Backlog = c.Backlog / 2
+			out = append(out, x)
+		}
 	}
 	if c.Exec != "default" {
 		x := cp()
@@ -174,6 +195,33 @@ func runJobs(t *testing.T, ci interface{}, trace bool) *common.Outcome {
 			r.ret = simrt.Seq()
 			r.returned = true
 		}
+		if c.Backlog > 0 {
+			released, gateRunning, queued := false, false, 0
+			pending++
+			simrt.GoNamed("gate", func() {
+				defer func() { pending-- }()
+				r := &jobRec{id: "gate", must: true}
+				recs = append(recs, r)
+				r.invoke = simrt.Seq()
+				nc.MustExecute(func() {
+					r.runs++
+					r.start = simrt.Seq()
+					running++
+					order = append(order, r)
+					gateRunning = true
+					simrt.WaitUntil("gate-release", func() bool { return released })
+					running--
+					r.end = simrt.Seq()
+				})
+				r.accepted, r.returned, r.ret = true, true, simrt.Seq()
+			})
+			simrt.WaitUntil("gate-running", func() bool { return gateRunning })
+			for k := 0; k < c.Backlog; k++ {
+				submit(99, fmt.Sprintf("b%d", k), JobSpec{Must: k%7 == 3})
+				queued++
+			}
+			released = true
+		}
 		for si, specs := range c.Submitters {
 			si, specs := si, specs
 			pending++
@@ -248,6 +296,16 @@ func runJobs(t *testing.T, ci interface{}, trace bool) *common.Outcome {
 	Finish(o, res, w)
 	w.Livelock(res)
 	if res.Deadlock && o.V == nil && o.Infra == "" {
+		// The world is stuck (typically: Stop waits for the connection, whose mutex is held for
+		// ever). When nbio itself logged a recovered Go runtime error before that - an index out of
+		// range or a nil dereference in its own job loop, not a panic injected by a job - the job
+		// machinery died while it held the lock: every later job, and the close handling, are lost.
+		for _, l := range w.LogErrors {
+			if strings.Contains(l, "runtime error:") {
+				o.Fail("job-runner-died", c.Exec, "nbio recovered an internal runtime error while running the connection's jobs (%.200s) and the world is stuck afterwards: %v", l, res.Blocked)
+				return o
+			}
+		}
 		o.Infra = fmt.Sprintf("run ended without finishing: %v", res.Blocked)
 	}
 	return o
